@@ -246,6 +246,16 @@ def localExtGuard (N : Nat) (x : Nat → Rat) (st : Interp.LState) (v1 v2 : Rat)
 abbrev localExtMeaningful (N : Nat) (x : Nat → Rat) (v1 v2 : Rat) : Prop :=
   v1 ≤ v2 ∧ inDomain N x v1 ∧ inDomain N x v2
 
+/-- a HISTORY of `Interpolate` calls `vs` on one object (the search state is threaded through):
+    the first abscissa outside the tolerated domain stops the program, whatever the earlier calls were -/
+def historyGuard (N : Nat) (x : Nat → Rat) : Interp.LState → List Rat → G
+  | _, [] => pass
+  | st, v :: vs =>
+    match Interp.locate N x st v with
+    | .error _ => stop
+    | .ok (_, st') => historyGuard N x st' vs
+def historyMeaningful (N : Nat) (x : Nat → Rat) (vs : List Rat) : Prop := ∀ v ∈ vs, inDomain N x v
+
 /-- `Interpolation_2D(x_val, y_val, func_values, …)` -/
 abbrev interp2CtorMeaningful (xs ys : List Rat) (f : List (List Rat)) : Prop :=
   f.length = xs.length ∧ (∀ r ∈ f, r.length = ys.length) ∧ validAbscissae xs ∧ validAbscissae ys
